@@ -179,6 +179,22 @@ def build_coq():
         return p.returncode == 0, p.stdout, failed
 
 
+def build_coq_checked(facts):
+    """build_coq; if the whole-function translation (Gen2.v) does not even type-check -- a gap of the translator, not a verdict about the
+    code -- every translated function is replaced by its translation at the pinned commit (reported in the evidence; those functions
+    are then tied by the correspondence check only) and the build is repeated."""
+    ok, lg, failed = build_coq()
+    if "theories/Gen2.vo" in failed:
+        from tools import rs2coq2
+        why = "Gen2.v as translated from the current sources does not compile"
+        tr2 = rs2coq2.regenerate2(REPO, os.path.join(THEORIES, "Gen2.v"), force_all=why)
+        facts["translator2_fallbacks"] = tr2["failed2"]
+        facts["translated_whole_functions"] = tr2["translated2"]
+        log(why + ": all whole-function translations replaced by their pinned versions")
+        ok, lg, failed = build_coq()
+    return ok, lg, failed
+
+
 def scan_forbidden():
     hits = []
     for f in coq_files() + ["../modelrun/Extract.v"]:
@@ -517,7 +533,7 @@ def check(pid, tier, seed):
 
     # 1-2: constants, proofs
     facts = source_facts()
-    coq_all_ok, coq_log, coq_failed = build_coq()
+    coq_all_ok, coq_log, coq_failed = build_coq_checked(facts)
     forbidden = scan_forbidden()
     props = check_props_file(pid)
     # The property's own theorem file must compile against freshly built dependencies (stale .vo files of
@@ -779,8 +795,8 @@ def replay(path):
 
 
 def setup():
-    source_facts()
-    ok, lg, failed = build_coq()
+    facts = source_facts()
+    ok, lg, failed = build_coq_checked(facts)
     if not ok:
         # not an infrastructure failure: a proof that no longer checks is what the check of the property concerned reports
         print(lg[-3000:])
